@@ -46,6 +46,7 @@ type Machine struct {
 	harnessPkg   *ssa.Package
 	lastPos      token.Pos
 	expectExit   int
+	errorDepth   int
 	schedLog     []string
 	sleep        map[string]tkey
 	onceDone     map[*Value]bool
